@@ -327,7 +327,8 @@ class List(list, base.Symbolic, pg_typing.CustomTyping):
       if deep or isinstance(v, base.Symbolic):
         v = base.clone(v, deep, memo)
       source.append(v)
-    return List(
+    # NOTE: a subclass of `pg.List` is cloned as that subclass.
+    return self.__class__(
         source,
         value_spec=self._value_spec,
         allow_partial=self._allow_partial,
